@@ -4,11 +4,15 @@
    no board (the model is a pure function, so the position is unchanged); when the test answers true the checked form
    returns exactly what the unchecked form returns; the only possible Panic of the checked form is a Panic of the legality
    test or of the application itself.  The promotion rule enforced by the test is stated explicitly (C03_promotion_rule).
-   PARTIAL: that the legality test agrees with membership in the generated list for every move value, and that it never
-   panics, are decided by the differential run: the complete 147,458-value universe on ~100 positions per quick run
-   (thousands thorough) and the natural sub-universe (every own piece to every square, with and without promotion,
-   both castlings) on every explored position. *)
-Require Import LC.model.Prims LC.model.Board.
+   PROVED in full (C03_test_is_rule, C03_test_iff_listed, C03_apply_iff_rule_legal, C03_reachable): on EVERY board whose
+   masks, hash, cached check/pin masks and terminal flag are current and whose mailbox position is valid (Good; this holds
+   in every position obtained by construction and play, Reach.v) and for EVERY move value with squares on the board
+   (any claimed piece type, origin, destination, promotion piece incl. King and Pawn, or either castling) the legality
+   test returns Ok (never Panic) with exactly the rule's verdict legal (abs b) mv, which is membership in the generated
+   list (C01); the checked application succeeds iff the move is rule-legal and otherwise returns exactly the
+   illegal-move error; it never panics.  The complete 147,458-value universe is additionally enumerated against the code
+   by the differential run. *)
+Require Import LC.model.Prims LC.model.Board LC.spec.Chess LC.proofs.MaskInv LC.proofs.MoveInv LC.proofs.C05Proofs LC.proofs.C01b LC.proofs.C03Proofs LC.proofs.Reach LC.proofs.Total.
 Open Scope N_scope.
 Theorem C03_apply_iff_legal : forall K b mv,
   (is_legal_move K b mv = Ok true -> make_move K b mv = make_move_unchecked K b mv) /\
@@ -37,3 +41,22 @@ Proof.
   destruct (is_blank _); [discriminate|]. cbv zeta.
   destruct (ptype_eqb (pm_type m) Pawn && (rank (pm_to m) =? promotion_rank (b_stm b))); destruct (pm_promo m) as [[]|]; cbn in H; try discriminate; auto.
 Qed.
+Theorem C03_test_is_rule : forall K b mv, Good K b -> wf_bmove mv -> is_legal_move K b mv = Ok (legal (abs b) mv).
+Proof. intros K b mv [[I _] D V T] W. exact (is_legal_move_spec K b I D V T mv W). Qed.
+Theorem C03_test_iff_listed : forall K b mv, Good K b -> wf_bmove mv ->
+  exists l, legal_moves K b = Ok l /\ (is_legal_move K b mv = Ok true <-> In mv l) /\ (is_legal_move K b mv = Ok false <-> ~ In mv l).
+Proof.
+  intros K b mv G W. pose proof (C03_test_is_rule K b mv G W) as E. destruct G as [[I _] D V T].
+  destruct (legal_moves_exact K b I D V) as (l & El & H). exists l. split; [exact El|]. rewrite E, (H mv).
+  destruct (legal (abs b) mv); split; split; intros X; try reflexivity; try discriminate; try congruence; try (exfalso; now apply X).
+Qed.
+Theorem C03_apply_iff_rule_legal : forall K b mv, Good K b -> wf_bmove mv ->
+  (legal (abs b) mv = true -> exists b', make_move K b mv = Ok b' /\ make_move_unchecked K b mv = Ok b') /\
+  (legal (abs b) mv = false -> make_move K b mv = Err EIllegalMove).
+Proof.
+  intros K b mv G W. destruct (make_move_total K b mv G W) as [H1 H2]. split; [|exact H2].
+  intros L. destruct (H1 L) as (b' & E). exists b'. split; [exact E|].
+  unfold make_move in E. destruct (is_legal_move K b mv) as [[]| |]; cbn [bind] in E; try discriminate. exact E.
+Qed.
+Theorem C03_reachable : forall K b, wreachable K b -> Good K b.
+Proof. exact wreachable_good. Qed.
